@@ -89,6 +89,7 @@ func sqlFault() error {
 	s.FaultsFired[FSQLFail]++
 	s.SQLFaults++
 	s.SQLFaultTags = append(s.SQLFaultTags, CurTag())
+	s.SQLEvents = append(s.SQLEvents, SQLEvent{Tag: CurTag()})
 	if s.cur != nil {
 		s.Tracef("sqlfault", s.cur.ID, "kind=%d", s.sqlFaultKind)
 	}
@@ -174,7 +175,13 @@ func (st *simStmt) Exec(args []driver.Value) (driver.Result, error) {
 		return nil, err
 	}
 	Probe(PSQLExec)
-	return st.real.Exec(args)
+	r, err := st.real.Exec(args)
+	if s := S; s != nil && s.cur != nil {
+		// the outcome of every statement the server executed, in order (the sql-fault oracle needs to know when a
+		// later store call of the same client went through)
+		s.SQLEvents = append(s.SQLEvents, SQLEvent{Tag: CurTag(), OK: err == nil})
+	}
+	return r, err
 }
 
 //go:norace
